@@ -55,6 +55,9 @@ func (r *faultReader) Read(p []byte) (int, error) {
 		return 0, nil
 	}
 	lim := int64(r.K)
+	if r.pos >= int64(len(r.Data)) && lim > int64(len(r.Data)) {
+		return 0, io.EOF // no read fault planned (K beyond the data): a plain end of stream
+	}
 	if r.pos >= lim {
 		if r.failed {
 			// a reader that keeps asking after the error never returns: make that a result instead of a hang
@@ -74,6 +77,9 @@ func (r *faultReader) Read(p []byte) (int, error) {
 	}
 	if r.pos+n > lim {
 		n = lim - r.pos
+	}
+	if r.pos+n > int64(len(r.Data)) {
+		n = int64(len(r.Data)) - r.pos
 	}
 	copy(p, r.Data[r.pos:r.pos+n])
 	r.pos += n
@@ -151,6 +157,8 @@ type ReadCase struct {
 	Split  int    `json:"first_read_at_most,omitempty"`
 	Seek   bool   `json:"seek_fails,omitempty"`
 	Err    int    `json:"error_kind,omitempty"`
+	PID    int    `json:"pid_option,omitempty"`
+	Page   int    `json:"page_option,omitempty"`
 }
 
 // ttmlRootEnd returns the offset just after the root element's end tag (the property's carve-out).
@@ -164,7 +172,22 @@ func ttmlRootEnd(b []byte) int {
 
 func checkRead(rc ReadCase) (key, msg string, out uint64) {
 	r := &faultReader{Data: rc.Data, K: rc.K, Shape: rc.Shape, Chunk: rc.Chunk, Split: rc.Split, SeekFail: rc.Seek, ErrKind: rc.Err}
-	s, err, pan := corpus.Read(rc.Format, r)
+	var s *astisub.Subtitles
+	var err error
+	var pan string
+	if rc.Format == "ts" && rc.PID != 0 {
+		// page and PID given: the library itself never rewinds, only the demultiplexer's packet-size probe seeks
+		func() {
+			defer func() {
+				if e := recover(); e != nil {
+					pan = fmt.Sprint(e)
+				}
+			}()
+			s, err = astisub.ReadFromTeletext(r, astisub.TeletextOptions{PID: rc.PID, Page: rc.Page})
+		}()
+	} else {
+		s, err, pan = corpus.Read(rc.Format, r)
+	}
 	desc := fmt.Sprintf("%s (%d bytes), stream fails with %q at offset %d (shape %d, chunk %d, seek-fails %v)", rc.Doc, len(rc.Data), faultErr(rc.Err), rc.K, rc.Shape, rc.Chunk, rc.Seek)
 	if strings.Contains(pan, spinMark) {
 		return "fault.read." + rc.Format + ".keeps-reading-after-the-error", desc + ": the reader ignores the error and polls the stream for ever", 0
@@ -441,11 +464,13 @@ func run(c *core.Ctx) {
 			}
 		}
 		if d.Format == "ts" && c.Mine() {
-			rc := ReadCase{Doc: d.Name, Format: d.Format, Data: d.Data, K: len(d.Data) + 1, Seek: true}
-			key, msg, out := checkRead(rc)
-			c.Record("read.ts.seek", out, core.Hash64(d.Name, "seek"), nil)
-			if key != "" {
-				c.Violate("read", key, msg, rc, len(d.Data))
+			for _, opt := range [][2]int{{0, 0}, {256, 888}, {256, 0}} {
+				rc := ReadCase{Doc: d.Name, Format: d.Format, Data: d.Data, K: len(d.Data) + 1, Seek: true, PID: opt[0], Page: opt[1]}
+				key, msg, out := checkRead(rc)
+				c.Record("read.ts.seek", out, core.Hash64(d.Name, "seek", fmt.Sprint(opt)), nil)
+				if key != "" {
+					c.Violate("read", key, msg, rc, len(d.Data))
+				}
 			}
 		}
 		if c.Expired() {
